@@ -1,6 +1,7 @@
 import PncModel.Camx.Uamiv
 import PncModel.Camx.Slab
 import PncModel.Camx.Landuse
+import PncModel.Camx.SlabRead
 /- line protocol for the binary-format models -/
 namespace Camx
 open Words Wire
@@ -100,6 +101,7 @@ def runBin : List String → String
   | "cr-enc" :: toks => Slab.runCR toks
   | "wind-enc" :: toks => Slab.runWind toks
   | "bnd-enc" :: toks => Slab.runBnd toks
+  | "slab-rd" :: toks => SlabRead.run ("slab-rd" :: toks)
   | "lu-enc" :: toks => Landuse.run ("lu-enc" :: toks)
   | "lu-read" :: toks => Landuse.run ("lu-read" :: toks)
   | "uamiv-write" :: toks =>
